@@ -485,6 +485,184 @@ func duoScenario(sendH, recvH string, capN, prefill int, sendTimed, recvTimed bo
 	}
 }
 
+// ---------------------------------------------------------------- several helper calls per thread, several threads
+
+// mrec: what a multi scenario observes. Call j of thread t sends the value 40+10*t+j.
+type mrec struct {
+	ch      chan int
+	ctx     *hctx
+	prefill []int
+	progs   [][]string
+	cur     []int      // per thread: index of the call in progress (len(prog) when the thread is done)
+	sendOK  [][]int    // per thread, per call: -1 not finished, 0 false, 1 true
+	recvV   [][]int    // per thread, per call
+	recvOK  [][]int
+}
+
+// multiScenario: every thread runs a program of helper calls one after the other on ONE channel;
+// "ST"/"SC"/"RT"/"RC" = SendTimeout/SendContext/RecvTimeout/RecvContext, suffix "+" = with a limit
+// (positive timeout / a context that a canceller thread cancels at some point), "-" = without.
+// A second call on the same thread is where state that survives a call (a reused timer, a pooled
+// buffer) would show. Oracle: value conservation over the whole execution.
+func multiScenario(progs [][]string, capN, prefill, bound int) schk.Scenario {
+	name := fmt.Sprintf("multi/%v/cap=%d/prefill=%d", progs, capN, prefill)
+	timedOf := func(c string) bool { return c[2] == '+' }
+	return schk.Scenario{
+		Name: name, Bound: bound, RaceBound: -2, ExpectDeadlock: true,
+		Body: func(s *vrt.Sched) any {
+			r := &mrec{ch: make(chan int, capN), ctx: &hctx{done: make(chan struct{})}, progs: progs, cur: make([]int, len(progs))}
+			for i := 0; i < prefill; i++ {
+				r.ch <- 1 + i
+				r.prefill = append(r.prefill, 1+i)
+			}
+			never := &hctx{done: make(chan struct{})}
+			needCancel := false
+			for t, prog := range progs {
+				r.sendOK = append(r.sendOK, make([]int, len(prog)))
+				r.recvV = append(r.recvV, make([]int, len(prog)))
+				r.recvOK = append(r.recvOK, make([]int, len(prog)))
+				for j, c := range prog {
+					r.sendOK[t][j], r.recvOK[t][j] = -1, -1
+					if c[1] == 'C' && timedOf(c) {
+						needCancel = true
+					}
+				}
+			}
+			b2i := func(b bool) int {
+				if b {
+					return 1
+				}
+				return 0
+			}
+			for t := range progs {
+				t := t
+				s.Spawn(fmt.Sprint("T", t), func() {
+					for j, c := range progs[t] {
+						r.cur[t] = j
+						d := time.Duration(0)
+						var ctx context.Context = never
+						if timedOf(c) {
+							d, ctx = time.Second, r.ctx
+						}
+						v := 40 + 10*t + j
+						switch c[:2] {
+						case "ST":
+							r.sendOK[t][j] = b2i(chans.SendTimeout(r.ch, v, d))
+						case "SC":
+							r.sendOK[t][j] = b2i(chans.SendContext(ctx, r.ch, v))
+						case "RT":
+							got, ok := chans.RecvTimeout(r.ch, d)
+							r.recvV[t][j], r.recvOK[t][j] = got, b2i(ok)
+						case "RC":
+							got, ok := chans.RecvContext(ctx, (<-chan int)(r.ch))
+							r.recvV[t][j], r.recvOK[t][j] = got, b2i(ok)
+						}
+					}
+					r.cur[t] = len(progs[t])
+				})
+			}
+			if needCancel {
+				s.Spawn("canceller", func() { r.ctx.err = context.Canceled; vrt.Close(r.ctx.done) })
+			}
+			return r
+		},
+		Check: func(x *vrt.Exec, obs any) (*schk.Fail, string) {
+			r := obs.(*mrec)
+			if x.Panic != "" {
+				return nil, "panic"
+			}
+			var left []int
+			for len(r.ch) > 0 {
+				left = append(left, <-r.ch)
+			}
+			out := fmt.Sprintf("progs=%v at=%v send=%v recv=%v/%v left=%v deadlock=%v", r.progs, r.cur, r.sendOK, r.recvV, r.recvOK, left, x.Deadlock)
+			count := func(v int) int {
+				n := 0
+				for _, l := range left {
+					if l == v {
+						n++
+					}
+				}
+				for t := range r.progs {
+					for j := range r.progs[t] {
+						if r.recvOK[t][j] == 1 && r.recvV[t][j] == v {
+							n++
+						}
+					}
+				}
+				return n
+			}
+			known := map[int]bool{}
+			for _, v := range r.prefill {
+				known[v] = true
+				if n := count(v); n != 1 {
+					return schk.Failf("value-not-conserved", "prefilled value %d accounted for %d times: %s", v, n, out), ""
+				}
+			}
+			for t, prog := range r.progs {
+				if r.cur[t] < len(prog) && timedOf(prog[r.cur[t]]) {
+					return schk.Failf("blocked-despite-limit", "thread %d's call %d (%s) has a limit and is blocked forever: %s %v", t, r.cur[t], prog[r.cur[t]], out, x.Blocked), ""
+				}
+				lastPre := 0
+				for j, c := range prog {
+					v := 40 + 10*t + j
+					if c[0] == 'S' {
+						known[v] = true
+						n := count(v)
+						switch r.sendOK[t][j] {
+						case 1:
+							if n != 1 {
+								return schk.Failf("send-report-mismatch", "thread %d call %d (%s) reported true but its value %d is accounted for %d times: %s", t, j, c, v, n, out), ""
+							}
+						case 0:
+							if n != 0 {
+								return schk.Failf("send-report-mismatch", "thread %d call %d (%s) reported false but its value %d was delivered %d times: %s", t, j, c, v, n, out), ""
+							}
+							if !timedOf(c) {
+								return schk.Failf("gave-up-without-limit", "thread %d call %d (%s) returned false without a limit: %s", t, j, c, out), ""
+							}
+						default:
+							if n != 0 {
+								return schk.Failf("send-duplicated", "thread %d call %d (%s) has not returned but its value %d was delivered: %s", t, j, c, v, out), ""
+							}
+						}
+						continue
+					}
+					switch r.recvOK[t][j] {
+					case 1:
+						if got := r.recvV[t][j]; got >= 1 && got <= len(r.prefill) {
+							if got < lastPre {
+								return schk.Failf("fifo", "thread %d received prefilled value %d after %d: %s", t, got, lastPre, out), ""
+							}
+							lastPre = got
+						}
+					case 0:
+						if r.recvV[t][j] != 0 {
+							return schk.Failf("recv-false-with-value", "thread %d call %d (%s) returned (%d,false): %s", t, j, c, r.recvV[t][j], out), ""
+						}
+						if !timedOf(c) {
+							return schk.Failf("gave-up-without-limit", "thread %d call %d (%s) returned false without a limit on an open channel: %s", t, j, c, out), ""
+						}
+					}
+				}
+			}
+			for t := range r.progs {
+				for j := range r.progs[t] {
+					if r.recvOK[t][j] == 1 && !known[r.recvV[t][j]] {
+						return schk.Failf("invented", "thread %d call %d received %d, which nobody sent: %s", t, j, r.recvV[t][j], out), ""
+					}
+				}
+			}
+			for _, l := range left {
+				if !known[l] {
+					return schk.Failf("invented", "value %d left in the channel was never sent: %s", l, out), ""
+				}
+			}
+			return nil, fmt.Sprintf("send=%v recv=%v/%v left=%v", r.sendOK, r.recvV, r.recvOK, left)
+		},
+	}
+}
+
 func main() {
 	r := ev.Start("C19")
 	var scs []schk.Scenario
@@ -548,8 +726,33 @@ func main() {
 			}
 		}
 	}
+	// several calls per thread / several helpers of the same kind on one channel
+	calls := []string{"ST+", "ST-", "SC+", "SC-", "RT+", "RT-", "RC+", "RC-"}
+	for _, a := range calls {
+		for _, b := range calls {
+			for capN := 0; capN <= 1; capN++ {
+				// one thread, two calls in a row, against a peer making the complementary single call
+				peer := "RT-"
+				if a[0] == 'R' {
+					peer = "ST-"
+				}
+				scs = append(scs, multiScenario([][]string{{a, b}, {peer}}, capN, 0, -1))
+				if r.Thorough() {
+					for _, c := range calls {
+						scs = append(scs, multiScenario([][]string{{a, b}, {c}}, capN, capN, -1))
+						scs = append(scs, multiScenario([][]string{{a}, {b}, {c}}, capN, 0, -1))
+					}
+				}
+			}
+		}
+	}
+	for _, tri := range [][]string{{"ST+", "ST+", "RT+"}, {"SC+", "ST-", "RC+"}, {"RT+", "RC+", "ST+"}, {"RT-", "RT+", "SC+"}, {"ST+", "SC+", "RC-"}} {
+		for capN := 0; capN <= 1; capN++ {
+			scs = append(scs, multiScenario([][]string{{tri[0]}, {tri[1]}, {tri[2]}}, capN, 0, ev.Pick(r, 3, -1)))
+		}
+	}
 	schk.Main(r, scs, ev.Pick(r, 45*time.Second, 600*time.Second), func(r *ev.Run) {
-		r.Set("rule", "controlled scheduler over the instrumented chans package (channel operations, select and timers modelled; a started timer may fire at any later point). Queued receivers: every capacity x fill level x open/closed x limit (RecvQueuedFull: buffer length), alone and with 1-2 senders blocked on the channel: never blocked, FIFO prefix, nothing invented, nothing lost, rest left in the channel. Timed/context helpers: helper || peer (none, receives once/twice, sends, closes, sends then closes) || timer or canceller, capacity 0..1(2), prefilled or not, limit on/off, under ALL interleavings with every ready select case tried: oracle is value conservation (true iff the value is in the buffer or with the peer; (v,true) iff v left the channel; closed counts as false; no limit means never giving up on an open channel)")
+		r.Set("rule", "controlled scheduler over the instrumented chans package (channel operations, select and timers modelled; a started timer may fire at any later point). Queued receivers: every capacity x fill level x open/closed x limit (RecvQueuedFull: buffer length), alone and with 1-2 senders blocked on the channel: never blocked, FIFO prefix, nothing invented, nothing lost, rest left in the channel. Timed/context helpers: helper || peer (none, receives once/twice, sends, closes, sends then closes) || timer or canceller, capacity 0..1(2), prefilled or not, limit on/off, under ALL interleavings with every ready select case tried: oracle is value conservation (true iff the value is in the buffer or with the peer; (v,true) iff v left the channel; closed counts as false; no limit means never giving up on an open channel). Multi scenarios: threads running 1-2 helper calls in a row on one channel (every ordered pair of the 8 helper/limit variants against a complementary peer; thorough: against every third call, and every triple of single calls) with the same conservation oracle over all calls, so that state surviving a call (a reused timer) is exercised")
 		r.Assume("timers are untimed: firing is possible at any point after NewTimer until Stop; sends on a closed channel are outside the property (they panic in Go)")
 	})
 }
